@@ -36,7 +36,13 @@ type recvStepOut struct {
 	stLast uint16
 }
 
+// recvRun runs one history under the watchdog: the receiver must answer every packet promptly
+// (its `for {}` scan in reorder() terminates only while the window invariant holds).
 func recvRun(c *corr.Ctx, h *RecvHistory, name string) {
+	c.Guard("C14", "recv", h, 20*time.Second, func() { recvRunInner(c, h, name) })
+}
+
+func recvRunInner(c *corr.Ctx, h *RecvHistory, name string) {
 	rr := &rtpreceiver.Receiver{
 		ClockRate:            90000,
 		UnrealiableTransport: h.Unreliable,
